@@ -79,6 +79,24 @@ def relations(run, specs, origin):
                        "signature": {"kind": "moment-shift"}})
 
 
+def representation_cases(run):
+    from gbasis.integrals.moment import moment_integral
+    rng = run.rng
+    cs = []
+    specs = [rand_shell(rng, l, cs, nprim=1 + l, nseg=1, exp_hi=5.0) for l in (0, 1)]
+    basis = make_basis(specs)
+    n = sum(s.size for s in specs)
+    pts = np.array([[0.0, 1.0, -1.0], [2.0, 0.0, 1.0]])
+    g = np.eye(n) * 2.0
+    g[0, n - 1] = g[n - 1, 0] = 1.0
+    rep = {"basis": core.describe_basis(specs), "points": pts.tolist(), "gamma": g.tolist()}
+    origin = np.array([1.0, -2.0, 0.0])
+    orders = np.array([[1, 0, 0], [0, 1, 1], [0, 0, 0]])
+    repr_case(run, "moment_integral", "moment_coord", lambda o: moment_integral(basis, o, orders), origin, rep)
+    T = np.array([[float((3 * r + 2 * c) % 5 - 2) for c in range(n)] for r in range(2)])
+    repr_case(run, "moment_integral", "transform", lambda t: moment_integral(basis, origin, orders, transform=t), T, rep)
+
+
 def check(run):
     rng = run.rng
     triples = list(itertools.product(range(5), repeat=3))
@@ -128,10 +146,14 @@ def check(run):
         for la, lb in itertools.product(range(5), repeat=2):
             specs = pair_specs(rng, la, lb)
             one_case(run, specs, [0.25, -0.5, 0.125], [rng.choice(triples) for _ in range(3)], None, "off")
+    representation_cases(run)
 
 
 def replay(run, rep):
     n0 = len(run.violations)
+    if rep.get("case") == "representation":
+        representation_cases(run)
+        return len(run.violations) == n0
     if rep.get("case") == "moment":
         t = rep.get("transform")
         one_case(run, specs_from(rep), rep["origin"], rep["orders"], None if t is None else np.array(t))
